@@ -24,7 +24,7 @@ type rcase struct {
 	I, J, K int
 	KindA   int // representation of operand a: 0 *r3.Mat, 1 *mat.Dense, 2 transposed *r3.Mat, 3 transposed *mat.Dense
 	KindB   int
-	Recv    int // receiver: 0 NewMat(nil), 1 zero value (nil data), 2 NewMat(garbage), 3 the operand a itself, 4 the operand b itself
+	Recv    int // receiver: 0 NewMat(nil), 1 zero value (nil data), 2 NewMat(garbage), 3 the operand a itself, 4 the operand b itself, 5/6 operand a/b is the transposed view m.T() of the receiver
 }
 
 var r3Fns = []string{
@@ -537,12 +537,25 @@ func checkR3(c rcase) *vk.Failure {
 		if !vk.SameBits(t.At(i, j), float64(c.P[1])) {
 			return vk.Failf(key+"/transpose-live", "T() does not reflect Set")
 		}
-		for _, bad := range [][2]int{{3, 0}, {0, 3}, {-1, 0}, {0, -1}} {
-			if r := vk.Call(func() { m.At(bad[0], bad[1]) }); r.Outcome == vk.Returned {
+		// "It will panic if i or j are out of bounds for the matrix": a
+		// deliberate panic (mat.ErrRowAccess / mat.ErrColAccess, as the safe
+		// build raises), the same in both builds, and no element is written.
+		want = readMat(m)
+		for _, bad := range [][2]int{{3, 0}, {0, 3}, {-1, 0}, {0, -1}, {3 + abs(c.K), 1}, {1, -1 - abs(c.K)}} {
+			switch r := vk.Call(func() { m.At(bad[0], bad[1]) }); r.Outcome {
+			case vk.Returned:
 				return vk.Failf(key+"/at-out-of-range", "At(%d,%d) returned, documented to panic", bad[0], bad[1])
+			case vk.RuntimeFault:
+				return vk.Failf(key+"/out-of-range-runtime-panic", "At(%d,%d) ends in a runtime error instead of mat.ErrRowAccess/ErrColAccess (the safe build's panic): %s", bad[0], bad[1], r.Text)
+			}
+			switch r := vk.Call(func() { m.Set(bad[0], bad[1], 1) }); r.Outcome {
+			case vk.Returned:
+				return vk.Failf(key+"/set-out-of-range", "Set(%d,%d) returned", bad[0], bad[1])
+			case vk.RuntimeFault:
+				return vk.Failf(key+"/out-of-range-runtime-panic", "Set(%d,%d) ends in a runtime error instead of mat.ErrRowAccess/ErrColAccess (the safe build's panic): %s", bad[0], bad[1], r.Text)
 			}
 		}
-		return nil
+		return matSame(key+"/out-of-range-unchanged", m, want)
 
 	case "r3.Mat.T":
 		a := matOperand(A, c.KindA)
@@ -553,6 +566,18 @@ func checkR3(c rcase) *vk.Failure {
 	case "r3.Mat.Scale", "r3.Mat.Add", "r3.Mat.Sub", "r3.Mat.CloneFrom":
 		a, b := matOperand(A, c.KindA), matOperand(B, c.KindB)
 		m := receiver(c, a, b)
+		view := false
+		tr := func(v [9]float64) []float64 { return []float64{v[0], v[3], v[6], v[1], v[4], v[7], v[2], v[5], v[8]} }
+		switch c.Recv {
+		case 5: // a is the transposed view of the receiver
+			m = r3.NewMat(tr(A))
+			a, view = m.T(), true
+		case 6: // b is the transposed view of the receiver
+			if c.Fn == "r3.Mat.Add" || c.Fn == "r3.Mat.Sub" {
+				m = r3.NewMat(tr(B))
+				b, view = m.T(), true
+			}
+		}
 		var want [9]float64
 		for i := range want {
 			switch c.Fn {
@@ -579,6 +604,14 @@ func checkR3(c rcase) *vk.Failure {
 			}
 		}); f != nil {
 			return f
+		}
+		if view {
+			// The operand reads the receiver's storage transposed; the documented
+			// result is that of the operand values at the time of the call.
+			if got := readMat(m); !sameBits9(got, want) {
+				return vk.Failf(key+"/transposed-view-of-receiver", "an operand is m.T(): result %v, want %v", got, want)
+			}
+			return consistent(key, m)
 		}
 		if f := matSame(key, m, want); f != nil {
 			return f
@@ -710,6 +743,17 @@ func checkR3(c rcase) *vk.Failure {
 		if z.VecRow(abs(c.I)%3) != (r3.Vec{}) || z.VecCol(abs(c.J)%3) != (r3.Vec{}) {
 			return vk.Failf(key+"/zero-value", "rows/columns of the zero value are not zero")
 		}
+		// "The zero value is usable as the 3×3 zero matrix": an index is
+		// accepted or rejected by the zero value as by NewMat(nil).
+		for _, idx := range []int{-1 - abs(c.K), 3 + abs(c.K)} {
+			var z0 r3.Mat
+			zm := r3.NewMat(nil)
+			r0, r1 := vk.Call(func() { z0.VecRow(idx) }), vk.Call(func() { zm.VecRow(idx) })
+			c0, c1 := vk.Call(func() { z0.VecCol(idx) }), vk.Call(func() { zm.VecCol(idx) })
+			if (r0.Outcome == vk.Returned) != (r1.Outcome == vk.Returned) || (c0.Outcome == vk.Returned) != (c1.Outcome == vk.Returned) {
+				return vk.Failf(key+"/zero-value-index", "index %d: VecRow %v / VecCol %v on the zero value but %v / %v on NewMat(nil)", idx, r0.Outcome, c0.Outcome, r1.Outcome, c1.Outcome)
+			}
+		}
 		if f := vk.MustPanic(key+"/row-panic", func() { m.VecRow(3 + abs(c.I)%3) }); f != nil {
 			return f
 		}
@@ -839,7 +883,7 @@ func drawR3(t *rapid.T) rcase {
 	c.K = rapid.IntRange(0, 11).Draw(t, "k")
 	c.KindA = rapid.IntRange(0, 3).Draw(t, "kindA")
 	c.KindB = rapid.IntRange(0, 3).Draw(t, "kindB")
-	c.Recv = rapid.IntRange(0, 4).Draw(t, "recv")
+	c.Recv = rapid.IntRange(0, 6).Draw(t, "recv")
 	return c
 }
 
